@@ -183,6 +183,8 @@ def run(ctx):
                     nm = rnd.choice(names)
                     safe = lambda x: bytes(c for c in x if 0x20 < c < 0x7f and c not in b'*?') or b'x'
                     variants += [(None, [safe(nm)[:3] + b'*']), (rnd.choice([None, 2]), [b'*' + safe(nm)[-2:], b'?' * len(nm)]), (None, [b'no-such-name'])]
+                    # wildcards of every shape (several stars in a row, stars next to '?', stars in the middle, near misses)
+                    variants += [(rnd.choice([None, None, 1, 2]), [listing.glob_from(rnd, rnd.choice(names)) for _ in range(rnd.choice([1, 1, 2]))]) for _ in range(2)]
             for quiet, pats in variants:
                 n += 1
                 mtime = rnd.choice([946684800, NOW - SIXM, NOW - SIXM + 1, NOW, 1])
